@@ -72,7 +72,7 @@ CLAIMED = {
              "in the would-block scenario; the descriptor inside a PSocket is always non-blocking (the one fcntl(F_SETFL) setter ORs O_NONBLOCK when asked for blocking=FALSE, and every "
              "constructor that installs a descriptor passes through it with FALSE before returning the object); poll gets the socket timeout when positive else a negative constant, fixed before the retry loop, "
              "0 -> TIMED_OUT, 1 -> TRUE, and a poll that returned 0 or 1 is never re-issued (whatever errno holds); getters return the field their setter writes; socket()/accept() descriptors get close-on-exec on "
-             "every success path; shutdown () gets SHUT_RDWR / SHUT_RD / SHUT_WR exactly for both / read / write and connected is cleared after both; check_connect_result stores connected = (SO_ERROR == 0) on every return after a successful getsockopt." + COMMON + DECIDES % "C10",
+             "every success path; shutdown () gets SHUT_RDWR / SHUT_RD / SHUT_WR exactly for both / read / write and connected is cleared after both; check_connect_result stores connected = (SO_ERROR == 0) on every return after a successful getsockopt; socket() itself is given SOCK_CLOEXEC." + COMMON + DECIDES % "C10",
         technique="guard dataflow with dominance of the closed check, scenario flows (non-blocking would-block, successful creation), term evaluation of the poll timeout, field-agreement of getters/setters"),
     "C06": dict(
         text="Rules C06.1-C06.5. C06.1-C06.4 on psemaphore-posix.c: name typestate in the create path (exclusive create first; never a plain open of a name "
@@ -81,7 +81,7 @@ CLAIMED = {
              "ownership, close always / unlink only when owner, acquire/release wiring with exact result mapping, key identity (the key derivation in pipc.c refers to no static or global variable, so concurrent opens of different names cannot meet). C06.5 on psemaphore-sysv.c (not selectable in the Linux build, "
              "analysed with the POSIX unit's flags): semop -1 / +1 on semaphore 0 from constant sembuf objects, blocking, with the same undo flag "
              "in both directions, every semop retried on EINTR; exclusive semget first, ownership only on its success, SETVAL exactly when owned or "
-             "in CREATE mode, IPC_RMID only by the owner, id tests separate exactly -1 from the valid ids, the key file is created exclusively. The constructor records mode and initial value before the create path runs and sizes the name buffer for name + suffix + NUL; the recording fields are as wide as the arguments." + COMMON + DECIDES % "C06",
+             "in CREATE mode, IPC_RMID only by the owner, id tests separate exactly -1 from the valid ids, the key file is created exclusively. The constructor records mode and initial value before the create path runs and sizes the name buffer for name + suffix + NUL; the recording fields are as wide as the arguments; clean_handle resets every field create_handle stores (both models)." + COMMON + DECIDES % "C06",
         technique="path-sensitive typestate over the IPC name (unknown/exists/absent) with guard facts on mode and errno; wiring and who-writes-field checks"),
     "C07": dict(
         text="Rules C07.1-C07.6. C07.1-C07.5 on pshm-posix.c: mmap parameters (MAP_SHARED, offset 0, shm_open descriptor, size field, protection by "
@@ -89,7 +89,7 @@ CLAIMED = {
              "flag, unlink only when owner); descriptor closed exactly once on every path; lock semaphore on the same key with value 1 and "
              "CREATE iff creator, lock/unlock wiring; the field munmap uses as length equals the mapped length and is frozen while mapped. C07.6 on pshm-sysv.c (analysed with "
              "the POSIX unit's flags): exclusive shmget with the requested size first, plain lookup with size 0 otherwise, reported size from "
-             "shm_segsz, lock semaphore CREATE exactly for the creator, IPC_RMID only with no attachment left, lock/unlock wiring, id tests separate exactly -1 from the valid ids; st_size reaches the size field without a narrower cast." + COMMON + DECIDES % "C07",
+             "shm_segsz, lock semaphore CREATE exactly for the creator, IPC_RMID only with no attachment left, lock/unlock wiring, id tests separate exactly -1 from the valid ids; st_size reaches the size field without a narrower cast; clean_handle resets every field create_handle stores (both models)." + COMMON + DECIDES % "C07",
         technique="path-sensitive typestate (descriptor open/closed, role creator/follower, size provenance) with guard facts; frozen-field rule between mmap and munmap"),
     "C08": dict(
         text="Rules C08.1-C08.8 on pshmbuffer.c (+ the reported-size half of C08.4 on pshm-posix.c): every segment access and every call of "
@@ -175,14 +175,14 @@ CLAIMED = {
              "table and the header pattern is applied only to lines that start with '[' and end with ']'; section names, keys and values reach "
              "their constructors only as trimmed text and the empty-quotes normalisation is made on the trimmed value; a line byte compared with a constant is read through a type that can hold the constant, and the byte-order-mark tests skip exactly the length of the "
              "standard mark the line starts with (C16.8, byte-test form only); a hand-built string is terminated before it is read as one and no clamp cuts below the longest line fgets delivers (C16.1). What the scanf patterns accept "
-             "beyond that table agreement is not decided. The trim helper sizes its result from two cursors that every path to the allocation has ordered (C16.7). " + DECIDES % "C16",
+             "beyond that table agreement is not decided. The trim helper sizes its result from two cursors that every path to the allocation has ordered (C16.7); the boolean getter returns 0/1 or the default only (C16.5). " + DECIDES % "C16",
         technique="format-string conversion bounds against array types, single-producer who-calls rule, restricted guard dataflow typestate for line/file/section, format-table agreement with edge-cut dominance of the header guards, raw/trimmed typestate of the text buffers"),
     "C17": dict(
         text="Rules C17.1-C17.5 on psocketaddress.c: every access through the native/destination buffer lies below the established length "
              "(offsets and sizes from the record layouts); to_native and new_from_native copy the same (object field, native byte range) "
              "pairs per family, port byte-swapped both ways and nothing else, family constants agree; get_native_size and to_native's guard "
              "use the same structure sizes, and new_from_native treats its length as a lower bound only (a longer buffer, as the kernel reports for sockaddr_storage, is accepted); text path restricted to numeric hosts with the addrinfo result freed on every path, and present "
-             "(after preprocessing) whenever the unit's compile flags provide getaddrinfo and a scope id; is_any compares with 0.0.0.0 and is_loopback tests 127.0.0.0/8 on a byte-swapped copy carrying all 32 bits (C17.5); inet_ntop gets room for the longest text of each family. " + DECIDES % "C17",
+             "(after preprocessing) whenever the unit's compile flags provide getaddrinfo and a scope id; is_any compares with 0.0.0.0 and is_loopback tests 127.0.0.0/8 on a byte-swapped copy carrying all 32 bits (C17.5); inet_ntop gets room for the longest text of each family; no string is turned away before the platform parsers were asked. " + DECIDES % "C17",
         technique="guard dataflow lower bounds against record layouts, sibling field-pair agreement, constant-table agreement"),
     "C18": dict(
         text="Rules C18.1-C18.6 over every function of the 37 analysed units that acquires a resource (every allocation site is treated "
